@@ -12,6 +12,7 @@ use crate::authoring::*;
 
 fn fwd(op: &Op, _ctx: &dyn Context, operands: &mut dyn CoordinateSet) -> usize {
     let grids = &op.params.grids;
+    let use_null_grid = op.params.boolean("null_grid");
     let ellps = op.params.ellps(0);
 
     let mut successes = 0_usize;
@@ -37,6 +38,12 @@ fn fwd(op: &Op, _ctx: &dyn Context, operands: &mut dyn CoordinateSet) -> usize {
         let dlon = (lat.cos() * ellps.prime_vertical_radius_of_curvature(lat)).recip();
 
         let Some(origin) = grids_at(grids, &coord, false) else {
+            // Outside of the grid coverage: With the null grid given, the
+            // point is passed through unchanged, as documented
+            if use_null_grid {
+                successes += 1;
+                continue;
+            }
             operands.set_coord(i, &Coor4D::nan());
             continue;
         };
